@@ -1,8 +1,10 @@
 #!/usr/bin/env python3
 """Imports round-10 sub-agent mutants /tmp/mut-U<k>/u<n> (confirmed by /var/tmp/mutverify/U<k>-u<n>.result) into seeded/<id>/u<k><n>."""
 import glob, json, os, shutil
+import sys
+TAG = sys.argv[1] if len(sys.argv) > 1 else "U"   # U = round 10 (stored as uNK), Q = round 11 (stored as qNK)
 n = 0
-for f in sorted(glob.glob('/var/tmp/mutverify/U*-u*.result')):
+for f in sorted(glob.glob('/var/tmp/mutverify/%s*-u*.result' % TAG)):
     p = open(f).read().split()
     if len(p) < 6:
         print("NOT CONFIRMED, skipped:", f, p); continue
@@ -11,7 +13,7 @@ for f in sorted(glob.glob('/var/tmp/mutverify/U*-u*.result')):
     src = "/tmp/mut-U%s/u%s" % (k, m)
     if "suite_exit=0" not in r or "suite_failed_results=0" not in r or "demo_without_patch_exit=0" not in r or "demo_with_patch_exit=0" in r:
         print("NOT CONFIRMED, skipped:", name, r); continue
-    dst = "seeded/%s/u%s%s" % (pid, k, m)
+    dst = "seeded/%s/%s%s%s" % (pid, TAG.lower(), k, m)
     os.makedirs(dst, exist_ok=True)
     shutil.copy(src + "/patch.diff", dst + "/patch.diff")
     shutil.copy(src + "/demo.rs", dst + "/demo.rs")
@@ -20,7 +22,7 @@ for f in sorted(glob.glob('/var/tmp/mutverify/U*-u*.result')):
     except Exception as e:
         meta = {"summary": "(agent meta.json unreadable: %s)" % e}
     out = {"property": pid, "summary": meta.get("summary"), "needs": meta.get("needs"), "files": meta.get("files"),
-           "author": "independent sub-agent (round 10, one lens per agent) given the 20 property texts and a scratch worktree of /repo @ c4fffcc; nothing from /verif",
+           "author": "independent sub-agent (round %s, one lens per agent" % {"U": 10, "Q": 11}[TAG] + ") given the 20 property texts and a scratch worktree of /repo @ c4fffcc; nothing from /verif",
            "agent_verified": meta.get("verified"),
            "confirmed_by_me": {"how": "scratch worktree /tmp/wt-U%s: git apply patch.diff; `cargo test --workspace --offline` (whole baseline suite); demo as strum_tests/tests/demo.rs run with the patch and after `git apply -R`" % k,
                                "result": r}}
